@@ -1,7 +1,93 @@
 // harness commands owned by property C08
+//   c08_tok {sql, dialect}  -> sqlparser's tokenizer for the sqlparser dialect that corresponds to the
+//                              prqlc dialect NAME (exact mapping, unlike main.rs sp_dialect which folds
+//                              redshift/glaredb into postgres): [{k, v}] without plain whitespace;
+//                              string tokens carry the UNESCAPED value.
+//   c08_dialects {}         -> per prqlc dialect name: does sqlparser's dialect treat backslash as an
+//                              escape inside '...' / keep \% \_ (the documented family split used by
+//                              Model/SqlLex.v)
+//   c08_float {text}        -> Rust's f64 parse + {:?} of a decimal spelling (what translate_literal prints)
 #![allow(unused_imports, dead_code)]
 use serde_json::{json, Value};
 
-pub fn dispatch(_cmd: &str, _req: &Value) -> Option<Value> {
-    None
+fn dialect_by_name(name: &str) -> Option<Box<dyn sqlparser::dialect::Dialect>> {
+    use sqlparser::dialect::*;
+    Some(match name {
+        "ansi" => Box::new(AnsiDialect {}),
+        "bigquery" => Box::new(BigQueryDialect {}),
+        "clickhouse" => Box::new(ClickHouseDialect {}),
+        "duckdb" => Box::new(DuckDbDialect {}),
+        "generic" => Box::new(GenericDialect {}),
+        "glaredb" => Box::new(PostgreSqlDialect {}),
+        "mssql" => Box::new(MsSqlDialect {}),
+        "mysql" => Box::new(MySqlDialect {}),
+        "postgres" => Box::new(PostgreSqlDialect {}),
+        "redshift" => Box::new(RedshiftSqlDialect {}),
+        "sqlite" => Box::new(SQLiteDialect {}),
+        "snowflake" => Box::new(SnowflakeDialect {}),
+        _ => return None,
+    })
+}
+
+fn tok(req: &Value) -> Value {
+    use sqlparser::tokenizer::{Token, Tokenizer, Whitespace};
+    let d = match dialect_by_name(crate::s(req, "dialect")) {
+        Some(d) => d,
+        None => return json!({"bad_dialect": crate::s(req, "dialect")}),
+    };
+    let mut t = Tokenizer::new(&*d, crate::s(req, "sql"));
+    match t.tokenize() {
+        Ok(toks) => {
+            let mut out = vec![];
+            for t in toks {
+                let (k, v) = match &t {
+                    Token::Whitespace(Whitespace::SingleLineComment { .. })
+                    | Token::Whitespace(Whitespace::MultiLineComment(_)) => continue,
+                    Token::Whitespace(_) => continue,
+                    Token::SingleQuotedString(s) => ("String", s.clone()),
+                    Token::Number(s, _) => ("Number", s.clone()),
+                    Token::Word(w) => match w.quote_style {
+                        Some(q) => ("Quoted", format!("{}{}", q, w.value)),
+                        None => ("Word", w.value.clone()),
+                    },
+                    Token::DoubleQuotedString(s) => ("DString", s.clone()),
+                    Token::EOF => continue,
+                    other => ("Punct", other.to_string()),
+                };
+                out.push(json!({"k": k, "v": v}));
+            }
+            json!({ "ok": out })
+        }
+        Err(e) => json!({"tok_err": e.to_string()}),
+    }
+}
+
+fn dialects() -> Value {
+    let mut m = serde_json::Map::new();
+    for n in prqlc::Target::names() {
+        let n = n.trim_start_matches("sql.").to_string();
+        if let Some(d) = dialect_by_name(&n) {
+            m.insert(
+                n,
+                json!({"bs": d.supports_string_literal_backslash_escape(), "wild": d.ignores_wildcard_escapes()}),
+            );
+        }
+    }
+    Value::Object(m)
+}
+
+fn float(req: &Value) -> Value {
+    match crate::s(req, "text").parse::<f64>() {
+        Ok(f) => json!({"debug": format!("{f:?}"), "display": format!("{f}"), "finite": f.is_finite(), "bits": format!("{:016x}", f.to_bits())}),
+        Err(e) => json!({"err": e.to_string()}),
+    }
+}
+
+pub fn dispatch(cmd: &str, req: &Value) -> Option<Value> {
+    match cmd {
+        "c08_tok" => Some(tok(req)),
+        "c08_dialects" => Some(dialects()),
+        "c08_float" => Some(float(req)),
+        _ => None,
+    }
 }
